@@ -2976,6 +2976,7 @@ func (data *Data) Clone() *Data {
 
 	// Copy nodes.
 	other.DataNodes = data.CloneDataNodes()
+	other.SqlNodes = data.CloneSqlNodes()
 	other.MetaNodes = data.CloneMetaNodes()
 
 	other.Databases = data.CloneDatabases()
@@ -2985,8 +2986,29 @@ func (data *Data) Clone() *Data {
 	other.MigrateEvents = data.CloneMigrateEvents()
 
 	other.QueryIDInit = data.CloneQueryIDInit()
+	other.ReplicaGroups = data.CloneReplicaGroups()
 
 	return &other
+}
+
+// CloneReplicaGroups returns a deep copy of the replica groups of every database.
+func (data *Data) CloneReplicaGroups() map[string][]ReplicaGroup {
+	if data.ReplicaGroups == nil {
+		return nil
+	}
+	rgs := make(map[string][]ReplicaGroup, len(data.ReplicaGroups))
+	for db, groups := range data.ReplicaGroups {
+		cp := make([]ReplicaGroup, len(groups))
+		for i := range groups {
+			cp[i] = groups[i]
+			if groups[i].Peers != nil {
+				cp[i].Peers = make([]Peer, len(groups[i].Peers))
+				copy(cp[i].Peers, groups[i].Peers)
+			}
+		}
+		rgs[db] = cp
+	}
+	return rgs
 }
 
 // Marshal serializes data to a protobuf representation.
